@@ -364,7 +364,9 @@ func (m *Variant) Encode() ([]byte, error) {
 
 // encode recursively writes the values to the buffer.
 func (m *Variant) encode(buf *Buffer, val reflect.Value) {
-	if val.Kind() != reflect.Slice || m.Type() == TypeIDByteString {
+	// a []byte is a ByteString value, everything else that is a slice is an
+	// array (of ByteStrings, too)
+	if val.Kind() != reflect.Slice || val.Type() == reflect.TypeOf([]byte{}) {
 		m.encodeValue(buf, val.Interface())
 		return
 	}
@@ -426,6 +428,11 @@ func (m *Variant) encodeValue(buf *Buffer, v interface{}) {
 		buf.WriteStruct(x)
 	case *DiagnosticInfo:
 		buf.WriteStruct(x)
+	default:
+		// do not silently write nothing
+		if buf.err == nil {
+			buf.err = errors.Errorf("opcua: cannot encode variant value of type %T", v)
+		}
 	}
 }
 
@@ -471,7 +478,8 @@ func sliceDim(val reflect.Value) (typ reflect.Type, dim []int32, count int32, er
 	}
 
 	// check that inner slices all have the same length
-	if val.Index(0).Kind() == reflect.Slice {
+	// (the elements of an array of ByteStrings may differ in length)
+	if val.Index(0).Kind() == reflect.Slice && val.Index(0).Type() != reflect.TypeOf([]byte{}) {
 		for i := 0; i < val.Len(); i++ {
 			if val.Index(i).Len() != val.Index(0).Len() {
 				return nil, nil, 0, errUnbalancedSlice
